@@ -471,8 +471,13 @@ SUBS = [
     Sub("addrgroup", judge_addrgroup, strategy=addrgroup_st, quick=1000, thorough=30000),
 ]
 
+# coverage-guided twins (fuzz/fuzz_hyp.py): atheris mutates the bytes Hypothesis decodes into cases of the same strategy
+SUBS += [__import__("lib.harness", fromlist=["x"]).cov_sub('C06', s_) for s_ in list(SUBS) if s_.name in ('ace',)]
+
 MANIFEST = {
     "technique": "property-based round-trip testing: generated objects of every exported class are rendered, re-parsed with the same settings and compared (text and data()); foreign spellings are compared by meaning with the independent reader",
     "text": "exploration: strict one-step fixpoint (text and exported data) for native-syntax inputs and two-step convergence with preserved meaning for foreign spellings, over thousands (quick) / 300 000 (thorough) generated objects of all eleven classes plus acls()/aces()/addrgroups() on rendered text",
     "note": "trusted: lib/refsem.py for the meaning of foreign spellings; config functions judged only for indent >= 1 and non-empty bodies; remark text is generated with single blanks (the parser normalises whitespace)",
 }
+MANIFEST["engine"] += " + atheris (coverage-guided twins of the Hypothesis sub-checks, fuzz/fuzz_hyp.py: 2 jobs x 8 s quick, 8 jobs x 200 s thorough)"
+MANIFEST["technique"] += "; plus coverage-guided fuzzing of the same strategies (atheris/libFuzzer mutates the byte stream Hypothesis decodes into cases, the same oracle runs inside the target, findings are re-judged outside it)"
